@@ -449,6 +449,40 @@ fn next_base() -> u64 {
 pub mod e2e;
 pub mod exhaust;
 
+/// Bounds what proptest may spend shrinking a failure of one generator: every evaluation of an end-to-end
+/// case costs real seconds (a failing one the whole settle bound). After the first failure at most `max_runs`
+/// further evaluations / `max_secs` seconds are spent; past that candidates are reported as passing, so the
+/// smallest failing case found so far is kept.
+pub struct ShrinkGuard {
+    failed: std::sync::atomic::AtomicBool,
+    runs: std::sync::atomic::AtomicU32,
+    started: Mutex<Option<std::time::Instant>>,
+    max_runs: u32,
+    max_secs: u64,
+}
+
+impl ShrinkGuard {
+    pub fn new(max_runs: u32, max_secs: u64) -> ShrinkGuard {
+        ShrinkGuard { failed: Default::default(), runs: Default::default(), started: Mutex::new(None), max_runs, max_secs }
+    }
+
+    pub fn run(&self, s: &vcore::Session, cx: &mut Cx, check: impl FnOnce(&mut Cx) -> Res) -> Res {
+        use std::sync::atomic::Ordering::SeqCst;
+        if cx.replaying && !s.is_replay() && self.failed.load(SeqCst) {
+            let n = self.runs.fetch_add(1, SeqCst);
+            let started = *self.started.lock().unwrap().get_or_insert_with(std::time::Instant::now);
+            if n >= self.max_runs || started.elapsed().as_secs() > self.max_secs {
+                return Ok(());
+            }
+        }
+        let r = check(cx);
+        if r.is_err() && !cx.replaying {
+            self.failed.store(true, SeqCst);
+        }
+        r
+    }
+}
+
 pub fn run(sc: &Scenario) -> Observed {
     timing::ensure();
     let _permit = Permit::acquire();
